@@ -36,6 +36,8 @@ def make_run(x, shape, tag='r'):
             toks.append(lexer.TokNewline(b'\n'))
         elif k == 'crlf':
             toks.append(lexer.TokNewline(b'\r\n'))
+        elif k == 'cr':
+            toks.append(lexer.TokNewline(b'\r'))
         elif k in ('c--', 'c//'):
             s = x.bytes('%s%d' % (tag, i), 2)
             for j in range(2):
@@ -57,7 +59,7 @@ def lexer_shapes(n, at_eof):
     """All kind sequences of length n the lexer can produce for a trivia
     run: a line comment is followed by a line end (or the end of input),
     blanks are maximal (no two adjacent 'sp')."""
-    kinds = ['sp', 'nl', 'crlf', 'c--', 'c//', 'blk']
+    kinds = ['sp', 'nl', 'crlf', 'cr', 'c--', 'c//', 'blk']
     out = []
 
     def rec(prefix):
@@ -71,7 +73,9 @@ def lexer_shapes(n, at_eof):
                 last = prefix[-1]
                 if last == 'sp' and k == 'sp':
                     continue
-                if last in ('c--', 'c//') and k not in ('nl', 'crlf'):
+                if last == 'cr' and k == 'nl':
+                    continue        # that would have been one CRLF token
+                if last in ('c--', 'c//') and k not in ('nl', 'crlf', 'cr'):
                     continue
             rec(prefix + [k])
     rec([])
